@@ -115,7 +115,7 @@ func judgeBody(d Data) engine.Outcome {
 	ndiags := 0
 	var sums []string
 	for pi, cv := range canaries(pool.Vars[bc.Var]) {
-		ctx := &hcl.EvalContext{Variables: pool.WithVar(bc.Var, cv), Functions: pool.ImplFuncs()}
+		ctx := &hcl.EvalContext{Variables: pool.WithVar(bc.Var, cv), Functions: funcs()}
 		body := dynblock.Expand(f.Body, ctx)
 		_, diags := hcldec.Decode(body, spec, ctx)
 		ndiags += len(diags)
